@@ -33,6 +33,11 @@ pub fn req_case(cx: &mut Ctx, ops: &[String]) {
                 "addraw" => req.message.add_option(CoapOption::from(f[1].parse::<u16>().unwrap()), parse_val(f[2])),
                 "clr" => req.message.clear_option(CoapOption::from(f[1].parse::<u16>().unwrap())),
                 "path" => req.set_path(std::str::from_utf8(&parse_val(f[1])).unwrap()),
+                "pathsame" => {
+                    // the getter's output as the setter's input
+                    let p = req.get_path();
+                    req.set_path(&p)
+                }
                 "method" => {
                     if let MessageClass::Request(m) = MessageClass::from(f[1].parse::<u8>().unwrap()) {
                         req.set_method(m)
@@ -88,8 +93,13 @@ pub fn req_case(cx: &mut Ctx, ops: &[String]) {
                     l.clear()
                 }
             }
-            "path" => {
-                let s = String::from_utf8(parse_val(f[1])).unwrap();
+            "path" | "pathsame" => {
+                let s = if f[0] == "path" {
+                    String::from_utf8(parse_val(f[1])).unwrap()
+                } else {
+                    let segs: Vec<String> = opts.get(&11).map(|l| l.iter().filter(|b| utf8_ok(b)).map(|b| String::from_utf8(b.clone()).unwrap()).collect()).unwrap_or_default();
+                    segs.join("/")
+                };
                 let mut segs: Vec<&str> = s.split('/').collect();
                 if segs[0].is_empty() {
                     segs.remove(0);
@@ -493,6 +503,32 @@ pub fn run(cx: &mut Ctx) {
             }
         }
         req_case(cx, &[format!("path {}", hex(s.as_bytes())), "getpath".into(), "getvec".into(), "raw 11".into()]);
+    }
+    // the getter's output fed back into the setter, over prior Uri-Path states whose rendering is
+    // not injective (separators inside a segment, undecodable segments, empty segments)
+    {
+        let priors: Vec<Vec<Vec<u8>>> = vec![
+            vec![], vec![vec![]], vec![b"a".to_vec()], vec![b"a/b".to_vec()], vec![b"a".to_vec(), vec![0xff, 0xfe], b"b".to_vec()],
+            vec![vec![], b"a".to_vec()], vec![vec![], vec![], b"a".to_vec()], vec![b"a".to_vec(), vec![]], vec![vec![0xff]], vec![b"/".to_vec()],
+            vec![b"a".to_vec(), b"b".to_vec()], vec![b"a".to_vec(), b"/".to_vec(), b"b".to_vec()], vec![vec![0xc3], b"x".to_vec(), vec![0x80]],
+        ];
+        for pr in &priors {
+            for via_setter in [false, true] {
+                let mut ops: Vec<String> = vec![];
+                if via_setter {
+                    let txt: Vec<String> = pr.iter().filter(|b| utf8_ok(b)).map(|b| String::from_utf8(b.clone()).unwrap()).collect();
+                    ops.push(format!("path {}", hex(txt.join("/").as_bytes())));
+                } else {
+                    for sg in pr {
+                        ops.push(format!("addraw 11 {}", hex(sg)));
+                    }
+                }
+                for tail in ["pathsame", "raw 11", "getvec", "getpath", "pathsame", "raw 11", "getpath"] {
+                    ops.push(tail.into());
+                }
+                req_case(cx, &ops);
+            }
+        }
     }
     // non-UTF-8 raw segments through the getters
     for _ in 0..500 {
